@@ -253,6 +253,99 @@ def clone_guess():
     return res
 
 
+def clone_contents():
+    """C12: everything a template can carry reaches its clones -- quadrature states, B-spline signals (with derivative signals),
+    inf_inert / inf_der symbols, guesses, values.  Two clones of a template against two stages declared directly with the same
+    content: the same NLP (f, g, lbg, ubg at random points, starting point, parameter values).  A template with sub-stages of its
+    own is either cloned with them or refused -- never cloned without them."""
+    import casadi as ca
+    from rockit import Ocp, Stage, MultipleShooting, SingleShooting, DirectCollocation
+    res = []
+    def c_quad(st):
+        x = st.state(); u = st.control(); q = st.state(quad=True); p = st.parameter()
+        st.set_value(p, 0.7)
+        st.set_der(x, -p * x + u + 0.2 * st.t); st.set_der(q, x ** 2 + u ** 2 + st.t)
+        st.subject_to(st.at_t0(x) == 1); st.subject_to(-1 <= (u <= 1)); st.subject_to(st.at_tf(q) <= 9)
+        st.add_objective(st.at_tf(q)); st.set_initial(u, 0.3 * st.t)
+    def c_sigv(st):
+        x = st.state(); u = st.control(); v = st.variable(grid='bspline', order=2)
+        st.set_der(x, -x + u + v); st.subject_to(st.at_t0(x) == 1); st.add_objective(st.integral(u ** 2 + v ** 2))
+        st.subject_to(st.der(v) <= 3); st.subject_to(st.der(st.der(v)) >= -40)
+    def c_sigp(st):
+        x = st.state(); u = st.control(); r = st.parameter(grid='bspline', order=1)
+        st.set_value(r, np.array([1.0, 2.0, 0.5, 4.0]))
+        st.set_der(x, -x + u + r); st.subject_to(st.at_t0(x) == 1); st.add_objective(st.integral(u ** 2 + x ** 2))
+    def c_sigpd(st):       # derivative signals of a parameter in path constraints
+        x = st.state(); u = st.control(); r = st.parameter(grid='bspline', order=2)
+        st.set_value(r, np.array([1.0, 2.0, 0.5, 4.0, 3.0]))
+        st.set_der(x, -x + u + r); st.subject_to(st.at_t0(x) == 1); st.add_objective(st.integral(u ** 2 + x ** 2))
+        st.subject_to(x - st.der(r) <= 10); st.subject_to(x + st.der(st.der(r)) >= -50, include_last=False)
+    def c_inf(st):
+        x = st.state(); v = st.state(); a = st.control(); p = st.parameter()
+        st.set_value(p, 2.0)
+        st.set_der(x, v); st.set_der(v, a); st.subject_to(st.at_t0(x) == 1); st.add_objective(st.integral(a ** 2))
+        st.subject_to(st.inf_inert(p) * x <= 5, grid='inf'); st.subject_to(st.inf_der(x) <= 3, grid='inf')
+    cases = [('quad', c_quad, [('MS', lambda: MultipleShooting(N=3, M=2, intg='rk')), ('SS', lambda: SingleShooting(N=2, intg='expl_euler')), ('DC', lambda: DirectCollocation(N=2, degree=2))]),
+             ('bspline-variable', c_sigv, [('MS', lambda: MultipleShooting(N=3, intg='rk')), ('DC', lambda: DirectCollocation(N=3, M=2, degree=2))]),
+             ('bspline-parameter', c_sigp, [('MS', lambda: MultipleShooting(N=3, intg='rk')), ('DC', lambda: DirectCollocation(N=3, degree=2))]),
+             ('bspline-parameter-der', c_sigpd, [('MS', lambda: MultipleShooting(N=3, M=2, intg='rk')), ('DC', lambda: DirectCollocation(N=3, M=2, degree=2))]),
+             ('inf', c_inf, [('DC', lambda: DirectCollocation(N=3, M=2, degree=4))])]
+    def nlp(o):
+        o.solver('ipopt', {"ipopt.print_level": 0, "print_time": False, "ipopt.sb": "yes"})
+        quiet(lambda: o._transcribed)
+        opti = o._method.opti
+        return ca.Function('F', [opti.x, opti.p], [opti.f, opti.g, opti.lbg, opti.ubg]), np.array(opti.debug.value(opti.x, opti.initial())).reshape(-1), np.array(opti.debug.value(opti.p, opti.initial())).reshape(-1)
+    horizons = ((0.0, 1.0), (1.0, 2.5))
+    for name, content, methods in cases:
+        for tag, mm in methods:
+            cl = 'C12.k:clone_contents:%s:%s' % (name, tag)
+            try:
+                t = Stage(t0=0, T=1); content(t); t.method(mm())
+                a = Ocp()
+                for t0, T in horizons: a.stage(t, t0=t0, T=T)
+                b = Ocp()
+                for t0, T in horizons:
+                    s = b.stage(t0=t0, T=T); content(s); s.method(mm())
+                Fa, xa, pa = nlp(a); Fb, xb, pb = nlp(b)
+                ok = xa.shape == xb.shape and pa.shape == pb.shape and np.allclose(pa, pb, rtol=0, atol=1e-12) and np.allclose(xa, xb, rtol=0, atol=1e-12)
+                det = '' if ok else 'sizes / parameter values / starting points differ: %s %s vs %s %s' % (xa.shape, pa.shape, xb.shape, pb.shape)
+                if ok:
+                    rng = np.random.RandomState(5)
+                    for _ in range(2):
+                        z = rng.uniform(0.2, 1.2, size=xa.shape)
+                        for nm, ra, rb in zip(('f', 'g', 'lbg', 'ubg'), Fa(z, pa), Fb(z, pb)):
+                            ra, rb = np.array(ra), np.array(rb)
+                            if ra.shape != rb.shape: ok = False; det = '%s has %s entries in the cloned and %s in the direct problem' % (nm, ra.shape, rb.shape)
+                            elif not np.allclose(ra, rb, rtol=1e-11, atol=1e-11, equal_nan=True): ok = False; det = '%s differs by %g' % (nm, float(np.nanmax(np.abs(ra - rb))))
+                res.append((cl, 'ok' if ok else 'mismatch', det))
+            except Exception as e:
+                res.append((cl, 'mismatch', 'clones of a template with this content cannot be transcribed: %s: %s' % (type(e).__name__, (str(e).splitlines() or [''])[-1][:200])))
+    # a template with a sub-stage
+    cl = 'C12.k:clone_contents:substage'
+    try:
+        def outer(st):
+            x = st.state(); u = st.control()
+            st.set_der(x, u); st.subject_to(st.at_t0(x) == 1); st.add_objective(st.integral(u ** 2)); st.method(MultipleShooting(N=3, intg='rk'))
+            s = st.stage(t0=0, T=1); y = s.state(); s.set_der(y, -y); s.subject_to(s.at_t0(y) == 1); s.add_objective(s.at_tf(y) ** 2); s.method(MultipleShooting(N=2, intg='rk'))
+        t = Stage(t0=0, T=1); outer(t)
+        a = Ocp()
+        try:
+            for t0, T in horizons: a.stage(t, t0=t0, T=T)
+            refused = None
+        except Exception as e:
+            refused = str(e)
+        if refused is not None:
+            res.append((cl, 'ok', 'refused: ' + refused[:120]))
+        else:
+            b = Ocp()
+            for t0, T in horizons: outer(b.stage(t0=t0, T=T))
+            _, xa, _ = nlp(a); _, xb, _ = nlp(b)
+            res.append((cl, 'ok' if xa.shape == xb.shape else 'mismatch', 'clones have %d decision variables, directly declared stages %d' % (xa.size, xb.size)))
+    except Exception as e:
+        res.append((cl, 'error', '%s: %s' % (type(e).__name__, (str(e).splitlines() or [''])[-1][:200])))
+    return res
+
+
 def builtin_saveload():
     """C18 for configurations outside the exact families: shooting with CasADi's built-in integrators (default options) and
     grids with default bounds under a free horizon.  The loaded problem must be the same NLP as the saved one."""
@@ -334,6 +427,66 @@ def vector_interval_param():
     return res
 
 
+def matrix_interval_param():
+    """C09: a matrix-valued per-interval parameter (2x2 block per control interval, with/without include_last) keeps its
+    element layout: the OCP equals the one written with four scalar per-interval parameters holding the entries (the scalar
+    case is the exact family of ScenShoot).  Values given before the transcription and changed live afterwards."""
+    import casadi as ca
+    from rockit import Ocp, MultipleShooting, DirectCollocation
+    res = []
+    def nlp(o):
+        quiet(lambda: o._transcribed)
+        opti = o._method.opti
+        return opti, ca.Function('F', [opti.x, opti.p], [opti.f, opti.g, opti.lbg, opti.ubg])
+    for tag, mk_m in (('MS', lambda: MultipleShooting(N=3, M=2, intg='rk')), ('DC', lambda: DirectCollocation(N=3, degree=2))):
+        for plus in (False, True):
+            cl = 'C09.m:matrix_interval_param:%s%s' % (tag, '+' if plus else '')
+            try:
+                n = 4 if plus else 3
+                def vals(seed):
+                    r = np.random.RandomState(seed)
+                    return [np.round(r.uniform(-1, 1, size=(2, 2)), 3) for _ in range(n)]
+                def build(matrix):
+                    ocp = Ocp(T=1.5)
+                    x = ocp.state(2); u = ocp.control()
+                    if matrix:
+                        A = ocp.parameter(2, 2, grid='control', include_last=plus); ps = A
+                    else:
+                        ps = [ocp.parameter(grid='control', include_last=plus) for _ in range(4)]
+                        A = ca.vertcat(ca.horzcat(ps[0], ps[1]), ca.horzcat(ps[2], ps[3]))
+                    ocp.set_der(x, A @ x + ca.vertcat(0, u))
+                    ocp.subject_to(ocp.at_t0(x) == 1); ocp.subject_to(A[0, 1] * x[0] + A[1, 0] * x[1] <= 5)
+                    ocp.add_objective(ocp.integral(u ** 2) + ocp.at_tf(x.T @ x) + ocp.sum(A[1, 0] * u))
+                    ocp.method(mk_m()); ocp.solver('ipopt', {"print_time": False, "ipopt": {"print_level": 0}})
+                    return ocp, ps
+                def give(ocp, ps, matrix, V):
+                    if matrix: ocp.set_value(ps, np.hstack(V))
+                    else:
+                        for q, (i, j) in zip(ps, ((0, 0), (0, 1), (1, 0), (1, 1))): ocp.set_value(q, np.array([v[i, j] for v in V]))
+                a, pa = build(True); b, pb = build(False)
+                ok = True; det = ''
+                for phase, seed in (('before', 1), ('live', 2)):
+                    give(a, pa, True, vals(seed)); give(b, pb, False, vals(seed))
+                    oa, Fa = nlp(a); ob, Fb = nlp(b)
+                    va = np.array(oa.debug.value(oa.p, oa.initial())).reshape(-1); vb = np.array(ob.debug.value(ob.p, ob.initial())).reshape(-1)
+                    rng = np.random.RandomState(3)
+                    for _ in range(2):
+                        z = rng.uniform(-1, 1, size=oa.nx)
+                        for nm, ra, rb in zip(('f', 'g', 'lbg', 'ubg'), Fa(z, va), Fb(z, vb)):
+                            ra, rb = np.array(ra), np.array(rb)
+                            if ra.shape != rb.shape or not np.allclose(ra, rb, rtol=1e-11, atol=1e-11, equal_nan=True):
+                                ok = False; det = '%s differs (%s values)' % (nm, phase)
+                    # read-back keeps the layout
+                    _, As = quiet(a.sample, pa, grid='control')
+                    got = np.array(oa.debug.value(As, oa.initial()))
+                    V = vals(seed); want = np.hstack(V + ([] if plus else [V[-1]]))
+                    if got.shape != want.shape or not np.allclose(got, want): ok = False; det = 'sampled blocks %s, given %s (%s)' % (np.round(got, 3).tolist(), want.tolist(), phase)
+                res.append((cl, 'ok' if ok else 'mismatch', det))
+            except Exception as e:
+                res.append((cl, 'mismatch', 'a matrix-valued per-interval parameter cannot be used: %s: %s' % (type(e).__name__, (str(e).splitlines() or [''])[-1][:200])))
+    return res
+
+
 def parent_guess_chain():
     """C12 / C10 at the parent level: guesses of parent variables are applied in order, a later one may refer to an earlier one."""
     from rockit import Ocp, MultipleShooting
@@ -355,6 +508,52 @@ def parent_guess_chain():
         res.append(('C12.g:parent_guess_chain', 'ok' if ok else 'mismatch', 'parent variables start at %s, guesses 3 and a - 0.5' % got))
     except Exception as e:
         res.append(('C12.g:parent_guess_chain', 'error', '%s: %s' % (type(e).__name__, (str(e).splitlines() or [''])[-1][:200])))
+    # a guess of a parent variable written in terms of a parent parameter: the problem with the value written in (C09)
+    try:
+        ocp = Ocp()
+        p = ocp.parameter(); c = ocp.variable()
+        s1 = ocp.stage(t0=0, T=1)
+        x = s1.state(); u = s1.control(); s1.set_der(x, u); s1.add_objective(s1.integral(u ** 2)); s1.subject_to(s1.at_t0(x) == c)
+        s1.method(MultipleShooting(N=2, intg='rk'))
+        ocp.add_objective((c - p) ** 2)
+        ocp.set_value(p, 3.0); ocp.set_initial(c, 2 * p + 0.25)
+        ocp.solver('ipopt', {"print_time": False, "ipopt": {"print_level": 0}})
+        quiet(lambda: ocp._transcribed)
+        opti = ocp._method.opti
+        got = float(opti.debug.value(quiet(ocp.value, c), opti.initial()))
+        res.append(('C12.g:parent_guess_param', 'ok' if abs(got - 6.25) < 1e-12 else 'mismatch', 'parent variable starts at %s, guess 2*p + 0.25 with p = 3' % got))
+    except Exception as e:
+        res.append(('C12.g:parent_guess_param', 'mismatch', 'a guess of a parent variable in terms of a parent parameter cannot be transcribed: %s: %s' % (type(e).__name__, (str(e).splitlines() or [''])[-1][:200])))
+    return res
+
+
+def substage_late_placeholder():
+    """C12 / C07 read-back on stages: at_t0 / at_tf of a stage requested only after the solve (as `sol.value(ocp.at_tf(x))`
+    works on a single-stage OCP) refer to that stage and equal the end points of its sampled trajectory; no new transcription."""
+    from rockit import Ocp, MultipleShooting, DirectCollocation, FreeTime
+    res = []
+    for tag, mm in (('MS', lambda: MultipleShooting(N=3, intg='rk')), ('DC', lambda: DirectCollocation(N=2, degree=2))):
+        cl = 'C12.p:substage_late_placeholder:' + tag
+        try:
+            ocp = Ocp()
+            st = []
+            for i, (t0, x0, xf) in enumerate(((0.0, 0.0, 1.0), (1.0, 2.0, -1.0))):
+                s = ocp.stage(t0=t0, T=FreeTime(1.0))
+                x = s.state(); u = s.control(); s.set_der(x, u + 0.1 * i)
+                s.subject_to(s.at_t0(x) == x0); s.subject_to(-3 <= (u <= 3)); s.add_objective(s.T + s.integral(u ** 2) + 10 * (s.at_tf(x) - xf) ** 2)
+                s.method(mm()); st.append((s, x, u))
+            ocp.solver('ipopt', {"print_time": False, "ipopt": {"print_level": 0, "sb": "yes"}})
+            sol = quiet(ocp.solve)
+            ok = True; det = []
+            for s, x, u in st:
+                ts, xs = sol(s).sample(x, grid='control')
+                a0 = float(sol(s).value(s.at_t0(x))); af = float(sol(s).value(s.at_tf(2 * x + 1)))
+                tf = float(sol(s).value(s.tf))
+                det.append('at_t0 %.6g (sample %.6g) at_tf(2x+1) %.6g (sample %.6g) tf %.6g (sample %.6g)' % (a0, xs[0], af, 2 * xs[-1] + 1, tf, ts[-1]))
+                ok = ok and abs(a0 - xs[0]) < 1e-9 and abs(af - (2 * xs[-1] + 1)) < 1e-9 and abs(tf - ts[-1]) < 1e-9
+            res.append((cl, 'ok' if ok else 'mismatch', '; '.join(det)))
+        except Exception as e:
+            res.append((cl, 'mismatch', 'read-back of a stage end point requested after the solve fails: %s: %s' % (type(e).__name__, (str(e).splitlines() or [''])[-1][:200])))
     return res
 
 
